@@ -640,6 +640,9 @@ type Lit struct {
 	Cond ssa.Value // never a NOT
 	Pos  bool
 	If   *ssa.If
+	// Subst is set for a literal taken from inside a classifier helper (paths.go, expandClassifiers): the helper's
+	// parameters -> the arguments of the call; cmp() reports the operands with it applied.
+	Subst map[ssa.Value]ssa.Value
 }
 
 func normLit(cond ssa.Value, pos bool) (ssa.Value, bool) {
@@ -733,6 +736,14 @@ func (l Lit) cmp() (token.Token, ssa.Value, ssa.Value, bool) {
 	}
 	switch op {
 	case token.EQL, token.NEQ, token.LSS, token.GEQ, token.GTR, token.LEQ:
+		if l.Subst != nil {
+			if r, ok := l.Subst[stripConv(bx)]; ok {
+				bx = r
+			}
+			if r, ok := l.Subst[stripConv(by)]; ok {
+				by = r
+			}
+		}
 		return op, bx, by, true
 	}
 	return 0, nil, nil, false
